@@ -25,14 +25,16 @@ theorem Term.beq_eq : ∀ (a b : Term), Term.beq a b = true → a = b
   | .atom n, .atom m, h => by simp [Term.beq] at h; simp [h]
   | .bool a, .bool b, h => by simp [Term.beq] at h; simp [h]
   | .none, .none, _ => rfl
+  | .lit n t, .lit m u, h => by simp [Term.beq] at h; simp [h.1, h.2]
   | .app f a, .app g b, h => by
       simp [Term.beq] at h
       have := Term.beqL_eq a b h.2
       simp [h.1, this]
-  | .atom _, .bool _, h | .atom _, .none, h | .atom _, .app _ _, h => by simp [Term.beq] at h
-  | .bool _, .atom _, h | .bool _, .none, h | .bool _, .app _ _, h => by simp [Term.beq] at h
-  | .none, .atom _, h | .none, .bool _, h | .none, .app _ _, h => by simp [Term.beq] at h
-  | .app _ _, .atom _, h | .app _ _, .bool _, h | .app _ _, .none, h => by simp [Term.beq] at h
+  | .atom _, .bool _, h | .atom _, .none, h | .atom _, .lit _ _, h | .atom _, .app _ _, h => by simp [Term.beq] at h
+  | .bool _, .atom _, h | .bool _, .none, h | .bool _, .lit _ _, h | .bool _, .app _ _, h => by simp [Term.beq] at h
+  | .none, .atom _, h | .none, .bool _, h | .none, .lit _ _, h | .none, .app _ _, h => by simp [Term.beq] at h
+  | .lit _ _, .atom _, h | .lit _ _, .bool _, h | .lit _ _, .none, h | .lit _ _, .app _ _, h => by simp [Term.beq] at h
+  | .app _ _, .atom _, h | .app _ _, .bool _, h | .app _ _, .none, h | .app _ _, .lit _ _, h => by simp [Term.beq] at h
 theorem Term.beqL_eq : ∀ (a b : List Term), Term.beqL a b = true → a = b
   | [], [], _ => rfl
   | x :: xs, y :: ys, h => by
@@ -143,11 +145,12 @@ structure Hom (D : Dom α) (E : Dom β) (f : α → β) : Prop where
   atom : ∀ n, f (D.atom n) = E.atom n
   bool : ∀ b, f (D.bool b) = E.bool b
   none : f D.none = E.none
+  lit : ∀ n t, f (D.lit n t) = E.lit n t
   app : ∀ g l, f (D.app g l) = E.app g (l.map f)
 
 theorem evalHom (I : Interp) : Hom domT (domV I) (Term.eval I) :=
   ⟨fun _ => by simp [domT, domV, Term.eval], fun _ => by simp [domT, domV, Term.eval], by simp [domT, domV, Term.eval],
-   fun g l => by simp [domT, domV, Term.eval]⟩
+   fun _ _ => by simp [domT, domV, Term.eval], fun g l => by simp [domT, domV, Term.eval]⟩
 
 theorem storeTarget_map (f : α → β) (loops : List (α × List Nat)) (a : Nat) :
     storeTarget (loops.map fun p => (f p.1, p.2)) a = (storeTarget loops a).map fun p => (f p.1, p.2) := by
@@ -170,6 +173,7 @@ theorem act_map {D : Dom α} {E : Dom β} {f : α → β} (h : Hom D E f) (code 
     | load a => simp [St.map, Act.map, Res.map, h.atom]
     | loadBool b => simp [St.map, Act.map, Res.map, h.bool]
     | loadNone => simp [St.map, Act.map, Res.map, h.none]
+    | loadLit n t => simp [St.map, Act.map, Res.map, h.lit]
     | copy n =>
       by_cases hn : n = 0
       · simp [hn, Act.map, Res.map, Outcome.map]
@@ -282,6 +286,7 @@ theorem Expr.sym_sound (I : Interp) : ∀ (e : Expr), (e.sym.run I).eval I = e.e
   | .atom n => by simp [Expr.sym, Expr.eval, Term.eval]
   | .bool b => by simp [Expr.sym, Expr.eval, Term.eval]
   | .none => by simp [Expr.sym, Expr.eval, Term.eval]
+  | .lit n t => by simp [Expr.sym, Expr.eval, Term.eval]
   | .not e => by
       have ih := Expr.sym_sound I e
       cases hb : I.truth (e.eval I) <;> simp [Expr.sym, Expr.eval, Tree.run_bind, Q.eval, ih, hb, Term.eval]
